@@ -2,7 +2,7 @@
    Statements only; proofs in theories/SATight.v (knowledge monotonicity) and theories/NormsProofs.v (gap functions). *)
 From ICG Require Import Prelude Bits Table Bounds FoldLemmas BoundsSpec SASound SAEquiv SATight Checks Shapley Exploit Norms NormsProofs SAMSpec SAMMono GapsAlongReveals.
 From ICG Require Import RegistryTypes gen.Registry gen.RegistryLinkProps Env.
-From ICG Require Import ShiftProofs.
+From ICG Require Import ShiftProofs GapCompare ExploitProofs ShapleyProofs.
 
 (* K <= K' pointwise: both superadditive computers give pointwise tighter intervals under K'.
    Holds for any pair of tables holding the two knowledge sets (stale rows arbitrary), hence along any reveal sequence. *)
@@ -87,6 +87,43 @@ Proof.
   split; [apply agrees_check_sound; vm_compute; reflexivity|].
   eexists. eexists. split; [vm_compute; reflexivity|]. split; vm_compute; reflexivity.
 Qed.
+
+(* The four offered gap functions measure the same width vector and are comparable for every n (GapCompare.v):
+   linf <= l1, exploitability <= l1, linf^2 <= l2^2 <= linf * l1, linf <= C * exploitability for any C bounding the
+   binomial coefficients of n. (l2 is carried as its square, as everywhere in this development.) *)
+Theorem C07_gap_functions_comparable :
+  forall n (w : N -> Q), (forall S, bounded n S -> 0 <= w S) ->
+    nm_linf n w <= nm_l1 n w
+    /\ ex_wgap n w <= nm_l1 n w
+    /\ nm_linf n w * nm_linf n w <= nm_l2sq n w
+    /\ nm_l2sq n w <= nm_linf n w * nm_l1 n w
+    /\ (forall C, (forall S, bounded n S -> inject_Z (sh_binom n (size n S)) <= C) -> nm_linf n w <= C * ex_wgap n w).
+Proof.
+  intros n w H. split; [apply gc_linf_le_l1|]. split; [apply gc_wgap_le_l1; exact H|].
+  split; [apply gc_linfsq_le_l2sq|]. split; [apply gc_l2sq_le_linf_l1|].
+  intros C HC. apply gc_linf_le_wgap; assumption.
+Qed.
+Print Assumptions C07_gap_functions_comparable.
+
+(* ... hence they vanish together: on a table with lower <= upper everywhere, any one gap function is zero iff every
+   interval is a point - "the gap reached zero" (end of a reveal sequence, the environment's done flag) does not depend
+   on the gap function selected. *)
+Theorem C07_gap_functions_vanish_together :
+  forall n t, (forall S, bounded n S -> lo (get t S) <= hi (get t S)) ->
+    let pinned := forall S, bounded n S -> lo (get t S) == hi (get t S) in
+    (nm_l1 n (nm_width_tab t) == 0 <-> pinned) /\ (nm_linf n (nm_width_tab t) == 0 <-> pinned) /\
+    (nm_l2sq n (nm_width_tab t) == 0 <-> pinned) /\ (ex_wgap n (nm_width_tab t) == 0 <-> pinned).
+Proof. exact gc_tab_zero_together. Qed.
+Print Assumptions C07_gap_functions_vanish_together.
+
+(* non-vacuity: the widths (0,1,2,0,3,0,0,0) of a 3-player table: linf 3, l1 6, l2^2 14, weighted gap 1/3+2/3+3/3 = 2;
+   every binomial coefficient of 3 is at most 3 *)
+Definition ex_gc_w (S : N) : Q := nth (N.to_nat S) [0; 1; 2; 0; 3; 0; 0; 0] 0.
+Example C07_gap_compare_example :
+  Qred (nm_linf 3 ex_gc_w) = 3 /\ Qred (nm_l1 3 ex_gc_w) = 6 /\ Qred (nm_l2sq 3 ex_gc_w) = 14
+  /\ Qred (ex_wgap 3 ex_gc_w) = 2
+  /\ forallb (fun S => Qle_bool 0 (ex_gc_w S) && Qle_bool (inject_Z (sh_binom 3 (size 3 S))) 3) (alln 3) = true.
+Proof. repeat split; vm_compute; reflexivity. Qed.
 
 (* ------------------------------------------------------------------ *)
 (* The gaps do not see a translation of the game by an additive game   *)
